@@ -3,8 +3,8 @@
 package gen
 
 import (
-	"errors"
 	"bytes"
+	"errors"
 	"fmt"
 	"hash/fnv"
 	"math/big"
